@@ -71,7 +71,7 @@ func checkC04(c *Ctx) {
 		text string
 	}
 	for _, ri := range c.goUnitRoots() {
-		ex := c.Explore(ri.Fn, 1, 6000)
+		ex := c.ExploreT(ri.Fn, 6000)
 		declares := unitDeclaresCodec(ex)
 		if !declares {
 			continue
@@ -420,7 +420,7 @@ func checkJSONOnMessages(c *Ctx, rule string) {
 	// typed information is only available in the shape worlds; use message-kind worlds of flatten and oneof, and the unwrap unit by name
 	sites := map[string]string{}
 	for _, ri := range c.goUnitRoots() {
-		ex := c.Explore(ri.Fn, 1, 6000)
+		ex := c.ExploreT(ri.Fn, 6000)
 		if !unitDeclaresCodec(ex) {
 			continue
 		}
